@@ -192,7 +192,7 @@ def exP : Prog :=
 /-- the program runs, the copy `c1` was nulled by the disconnect through `c0`, nothing dangles -/
 example : ∃ s, runTop 3 exP {} exP.top = some s ∧ aget s.C 1 = some none ∧ NoDangling s := by
   have h : ∃ s, runTop 3 exP {} exP.top = some s ∧ aget s.C 1 = some none := by
-    simp [exP, runTop, execLine, execOp, modeRule, FSpec.isOwner, stepSimple, aget, aset, St.fresh, mkFun, specTaint, ensureImpl,
+    simp [exP, runTop, execLine, execOp, stepSimple, aget, aset, St.fresh, mkFun, specTaint, ensureImpl,
       insertCell, setConn, setImpl, St.log, collect, collectN, disconnectCell, getCell, findCellImpl, updCell, modeRule, FSpec.isOwner,
       notifyParent, eraseCell, nullConns, amap, SlotB.disconnectRep]
   obtain ⟨s, hs, hc⟩ := h
